@@ -25,14 +25,15 @@ def rule_table_style(prog, rep, tier):
     styles = list(TOK.fields)
     # detection precedence from parse_docstring
     pd = prog.fn("docstring_parsers.parse_docstring")
+    pd_nodes = [n_ for f_ in prog.region(pd) for n_ in ast.walk(f_.node)]
     order = []
     last = None
-    for n in ast.walk(pd.node):
+    for n in pd_nodes:
         if isinstance(n, ast.If):
             for a in ast.walk(n.test):
                 if isinstance(a, ast.Attribute) and isinstance(a.value, ast.Name) and a.value.id == "TOKENS" and a.attr in styles and a.attr not in order:
                     order.append(a.attr)
-    for n in ast.walk(pd.node):
+    for n in pd_nodes:
         if isinstance(n, ast.Assign) and any(isinstance(t, ast.Name) and t.id == "style" for t in n.targets) and isinstance(n.value, ast.Attribute):
             if n.value.attr in styles and n.value.attr not in order:
                 last = n.value.attr
@@ -383,20 +384,22 @@ def rule_table_argparse(prog, rep, tier):
 
 # ---------------------------------------------------------------------------- TABLE-announce (C08, C17)
 def _announce_reader(prog, folder):
-    ed = prog.fn("defaults_utils.extract_default")
-    for c in ast.walk(ed.node):
+    ed0 = prog.fn("defaults_utils.extract_default")
+    for ed, c in [(f_, c_) for f_ in prog.region(ed0) for c_ in ast.walk(f_.node)]:
         if isinstance(c, ast.Call) and prog.is_fn(c.func, "pure_utils.location_within", c) and len(c.args) >= 2:
             e = c.args[1]
             if isinstance(e, ast.IfExp):
                 e = e.body
             cands = [e]
             if isinstance(e, ast.Name):
-                cands = [st.value for st in ast.walk(ed.node) if isinstance(st, ast.Assign) and any(isinstance(t, ast.Name) and t.id == e.id for t in st.targets)]
+                cands = [st.value for st in ast.walk(ed.node) if isinstance(st, ast.Assign) and any(isinstance(t, ast.Name) and t.id == e.id for t in st.targets)] or [e]
             v = UNKNOWN
             for cand in cands:
+                if isinstance(cand, ast.IfExp):
+                    cand = cand.body
                 vv = folder.fold(cand, {}, cand)
-                if vv is not UNKNOWN and isinstance(vv, (tuple, list)) and vv and all(isinstance(x, str) for x in vv):
-                    v = vv
+                if vv is not UNKNOWN and isinstance(vv, (tuple, list, frozenset)) and vv and all(isinstance(x, str) for x in vv):
+                    v = tuple(sorted(vv)) if isinstance(vv, frozenset) else vv
                     break
             if v is not UNKNOWN:
                 casefold = any(isinstance(x, ast.Attribute) and x.attr == "casefold" for k in c.keywords for x in ast.walk(k.value))
